@@ -32,9 +32,20 @@ Print Assumptions C04_nodes_in_order.
 (* every link the conversion produces is justified by the source: its start
    predication has that role; the target is the predication the argument refers to
    (EQ/NEQ by label identity), or the first representative of the scope a handle
-   constraint (H) or a direct label (HEQ) selects, or it is a MOD/EQ link from a
+   constraint (H) or a direct label (HEQ) selects (for a quantifier: the member of that
+   scope it binds, C04_scopal_target), or it is a MOD/EQ link from a
    later representative, or from another member of the scope that no /EQ link ties to
    it (repaired code, F32), to the first representative of one scope *)
+(* the end of a scopal link of a quantifier (repaired code, F34): the first representative
+   of the selected scope, unless a non-quantifier member of that scope carries the
+   quantifier's own variable - then that member *)
+Theorem C04_scopal_target : forall m ids e lbl r,
+  scopal_target m ids e lbl r = r \/
+  (is_quant e = true /\ exists p, In p (eps m ids) /\ fst p = scopal_target m ids e lbl r /\
+     e_label (snd p) = lbl /\ is_quant (snd p) = false /\ e_iv (snd p) = e_iv e).
+Proof. exact scopal_target_spec. Qed.
+Print Assumptions C04_scopal_target.
+
 Theorem C04_links_justified : forall m d, dmrs_from_mrs m = COk d ->
   exists ids reps, ep_ids (m_rels m) = Some ids /\ representatives m = Some reps /\
     forall l, In l (d_links d) -> link_justified m ids reps l.
